@@ -209,9 +209,10 @@ def replay_zippy_edges(jobfile, edges_file, shards=None):
         r = json.load(open(outp))
         for k in ("edges", "mismatches", "panics"):
             tot[k] += r[k]
-        tot["samples"] += r["samples"][:10]
+        tot["samples"] += r["samples"]
         os.remove(part)
         os.remove(outp)
+    tot["samples"].sort(key=lambda d: len(d["h"]))
     return tot
 
 
@@ -251,7 +252,7 @@ def check_instance(name, desc, wd, qmax=1, maxep=0, maxmod=0, maxidle=0, maxhold
             rr = replay_zippy_edges(jobfile, ef)
             res["replayed"] = rr["edges"]
             res["drift"] = rr["mismatches"]
-            res["drift_samples"] = rr["samples"][:5]
+            res["drift_samples"] = rr["samples"]
             res["impl_panics"] = rr["panics"]
     res["wall_s"] = round(time.time() - t0, 1)
     return res
@@ -366,3 +367,137 @@ def rand_dict(rng, tier):
     keys = ["a", "b", "c", "spc"] + (["comm"] if ss == "full" else [])
     return {"lines": lines, "D": D, "W": W, "ss": ss, "punct": None, "keys": keys,
             "mods": rng.choice([["lsft"], ["lsft", "rsft"], ["lsft", "ralt"]])}
+
+
+# ---------------------------------------------------------------- the instance family
+def _line(chain, out):
+    return {"chain": [[("spc" if k == " " else k) for k in c] for c in chain], "out": out}
+
+
+def _desc(lines, keys, mods=(), D=2, W=2, ss="none", punct=None):
+    return {"lines": [_line(c, o) for c, o in lines], "keys": list(keys), "mods": list(mods), "D": D, "W": W, "ss": ss,
+            "punct": punct}
+
+
+def family(tier):
+    """(name, description, bounds).  Dictionaries over {a, b, c, space} (+ comma for the punctuation rule):
+    extension, overlap, outputs sharing a prefix, follow-up chords (one and two keys), upper/lower-case outputs,
+    a shift held, smart space (add / full), the space key as a chord key.
+    bounds: hold = character presses per hold (histories themselves are unbounded: the monitor forgets the committed
+    text at quiescent points, all counters saturate)."""
+    q = [
+        ("ext", _desc([(["ab"], "Abba"), (["abc"], "alphabet")], "abc"), dict(hold=4)),
+        ("pre", _desc([(["ab"], "he"), (["abc"], "help"), (["bc"], "x")], "abc", ss="add-space-only"), dict(hold=3)),
+        ("fol", _desc([(["ab"], "day"), (["ab", "c"], "Monday"), (["ab", "a"], "do")], "abc"), dict(hold=3)),
+        ("sft", _desc([(["ab"], "Hi"), (["ab", "a"], "him")], "ab", ["rsft"]), dict(hold=3)),
+        ("ssp", _desc([(["ab"], "hi")], ["a", "b", "comm"], ss="full"), dict(hold=3)),
+        ("spc", _desc([([" a"], "and"), ([" ab"], "about")], ["spc", "a", "b"]), dict(hold=3)),
+    ]
+    if tier == "quick":
+        return q
+    t = [
+        ("ext4", _desc([(["ab"], "Abba"), (["abc"], "alphabet")], "abc", D=3, W=2), dict(hold=4)),
+        ("pre4", _desc([(["ab"], "he"), (["abc"], "help"), (["bc"], "x")], "abc"), dict(hold=4)),
+        ("fol4", _desc([(["ab"], "day"), (["ab", "c"], "Monday"), (["ab", "a"], "do")], "abc"), dict(hold=4)),
+        ("fol2", _desc([(["ab"], "day"), (["ab", "bc"], "Monday"), (["ab", "bc", "a"], "Mon")], "abc", D=3, W=2), dict(hold=3)),
+        ("shp", _desc([(["ab"], "he"), (["abc"], "hex")], "abc", ["lsft"]), dict(hold=3)),
+        ("sfu", _desc([(["ab"], "Hello"), (["b"], "B")], "ab", ["lsft", "rsft"]), dict(hold=3)),
+        ("agr", _desc([(["ab"], "hi"), (["ab", "a"], "ho")], "ab", ["ralt"]), dict(hold=3)),
+        ("ssq", _desc([(["ab"], "hi"), (["abc"], "hint")], ["a", "b", "c", "comm"], ss="full", D=2, W=1), dict(hold=3)),
+        ("ssf", _desc([(["ab"], "hi"), (["ab", "a"], "his ")], ["a", "b", "comm"], ["lsft"], ss="full"), dict(hold=3)),
+        ("ovl", _desc([(["ab"], "x"), (["bc"], "y"), ([" c"], "Zed"), ([" abc"], "all")], ["spc", "a", "b", "c"], D=2, W=1),
+         dict(hold=3)),
+        ("w3", _desc([(["ab"], "Abba"), (["abc"], "alphabet")], "abc", D=3, W=3), dict(hold=3)),
+    ]
+    return q + t
+
+
+def complete(h, desc):
+    """A model history -> harness script ending at a quiescent point (everything released, re-enable time passed)."""
+    s = flow.hist_to_script(h)
+    down = []
+    for st in h:
+        if st[0] == "d" and st[1] not in down:
+            down.append(st[1])
+        elif st[0] == "u" and st[1] in down:
+            down.remove(st[1])
+    s.append(["t", 1])
+    for k in down:
+        s += [["u", k], ["t", 1]]
+    s.append(["t", desc["W"] + desc["D"] + 3])
+    return s
+
+
+def run(tier, seed):
+    pid = "C20"
+    res = flow.Result(pid, tier, seed)
+    rng = random.Random(seed)
+    wd = workdir("c20")
+    quick = tier == "quick"
+    groups = {"witness": [], "drift": [], "attempts": [], "random": []}
+
+    def job(desc, tag, scripts):
+        j = job_of(desc)
+        j.update({"params": params_of(desc, fwin=10000, qcap=desc["W"] + 1), "tag": tag, "scripts": scripts})
+        return j
+
+    # D + B: TLC explores Zippy || P_C20, every transition replayed on the real code
+    for name, desc, b in family(tier):
+        r = check_instance(name, desc, wd, maxhold=b["hold"], workers=8, timeout=1500)
+        res.add_instance(r)
+        if len(res.samples) < 4:
+            res.samples.append({"instance": name, "dictionary": dict_text(desc), "defzippy": kbd_text(desc).splitlines()[-1],
+                                "states": r["states"], "edges": r.get("edges"), "model_level_rejections": r["n_monerr"]})
+        ws = flow.witness_scripts(r["monerr_file"], 25 if quick else 80)
+        if ws:
+            groups["witness"].append(job(desc, "w:" + name, [complete(w["h"], desc) for w in ws]))
+        ds = r.get("drift_samples", [])
+        if ds:
+            pick = ds[:120] + rng.sample(ds[120:], min(len(ds) - 120, 80)) if len(ds) > 120 else ds
+            groups["drift"].append(job(desc, "d:" + name, [complete(d["h"], desc) for d in pick]))
+        groups["attempts"].append(job(desc, "a:" + name, chord_attempts(desc, rng, limit=250 if quick else 2500)))
+        groups["random"].append(job(desc, "r:" + name, [rand_typing(rng, desc, rng.randint(4, 40)) for _ in range(20 if quick else 150)]))
+    # C beyond the bounds of the exhaustive instances: random dictionaries (<= 4 lines over {a, b, c, space}), larger
+    # deadlines, both shifts / altgr, the quantifier's attempts and random typing
+    for i in range(10 if quick else 120):
+        desc = rand_dict(rng, tier)
+        groups["attempts"].append(job(desc, "a:rd%d" % i, chord_attempts(desc, rng, limit=120 if quick else 600)))
+        groups["random"].append(job(desc, "r:rd%d" % i, [rand_typing(rng, desc, rng.randint(4, 60)) for _ in range(30 if quick else 150)]))
+    nrej = 0
+    classes = {}
+    for label in ("witness", "drift", "attempts", "random"):
+        jobs = groups[label]
+        if not jobs:
+            continue
+        jobs = shard_local_index(jobs)
+        errs, trace = record_and_validate(res, "P_C20", jobs, wd, "c20_" + label)
+        nviol = 0
+        for e in errs:
+            nrej += 1
+            j, s = script_of(jobs, e["job"], 0)
+            cls = e["err"].split("class=")[-1] if "class=" in e["err"] else e["err"]
+            classes[cls] = classes.get(cls, 0) + 1
+            text = e["err"] + " dictionary=" + json.dumps(j["files"]["dict"]) + " " + j["cfg"].splitlines()[-1]
+            known = any(flow.sig_matches(f, pid, text) for f in known_findings().get("findings", []))
+            if not known and nviol >= 6:
+                continue     # enough replay files for this group
+            if flow.classify(res, pid, e["err"], text,
+                             {"property": pid, "cfg": j["cfg"], "files": j["files"], "params": j["params"], "script": s,
+                              "err": e["err"], "monitor": "P_C20"}, "%s_%d" % (label, len(res.violations))):
+                nviol += 1
+        if label == "attempts" and len(res.samples) < 6:
+            res.samples.append({"attempt_script": jobs[0]["scripts"][0][:24], "dictionary": jobs[0]["files"]["dict"]})
+    res.extra["rejections_by_class"] = classes
+    res.extra["recorded_traces_rejected"] = nrej
+    return flow.finish(
+        res, "model_checking",
+        "TLC explores Zippy.tla (L1 transliteration of zippychord.rs, constants from the real parser) composed with the "
+        "text-buffer reference model P_C20 for every physically consistent history over each instance's keys (all press orders, "
+        "release interleavings and gaps; <= hold character presses per hold); every model transition is replayed on the real "
+        "code (OS events + idle compared); model-level rejections, drifting edges, the quantifier's chord attempts (every entry x "
+        "every permutation x gaps below the deadline x no shift/lsft/rsft x 1-2 further keys) and random typing over the instance "
+        "and over random dictionaries are recorded from the real code and validated by TLC against P_C20.",
+        assumptions=["deterministic stepper", "identity layout: one key event reaches the zippychord stage per tick",
+                     "the OS ignores a press of a key that is already down (Obs.tla convention)",
+                     "zippychord state is process-global: one Kanata at a time per harness process, re-initialised by "
+                     "Kanata::new_from_str -> zch_configure -> zchd_reset"])
